@@ -31,8 +31,8 @@ type genAtom struct {
 
 type gaCase struct {
 	Atoms       []genAtom   `json:"atoms"`
-	Vals        [][][]m.Lit `json:"vals"`  // node x atom -> values of ex.p<atom>
-	Vals2       [][][]m.Lit `json:"vals2"` // node x atom -> values of ex.q<atom> (comparisons)
+	Vals        [][][]m.Lit `json:"vals"`                // node x atom -> values of ex.p<atom>
+	Vals2       [][][]m.Lit `json:"vals2"`               // node x atom -> values of ex.q<atom> (comparisons)
 	NumStyle    int         `json:"num_style,omitempty"` // YAML spelling of the numbers in the profile
 	ProfileText string      `json:"profile_text"`
 	DataText    string      `json:"data_text"`
